@@ -661,7 +661,7 @@ static LY_ERR
 lydxml_subtree_opaq(struct lyd_xml_ctx *lydctx, const struct lyd_node *sibling, const char *prefix, uint32_t prefix_len,
         const char *name, uint32_t name_len, struct lyd_node **insert_anchor, struct lyd_node **node)
 {
-    LY_ERR rc = LY_SUCCESS;
+    LY_ERR r, rc = LY_SUCCESS;
     struct lyxml_ctx *xmlctx = lydctx->xmlctx;
     struct lyd_node_opaq *opaq;
     const char *ns_uri, *value = NULL;
@@ -710,9 +710,11 @@ lydxml_subtree_opaq(struct lyd_xml_ctx *lydctx, const struct lyd_node *sibling, 
 
     /* process children */
     while (xmlctx->status == LYXML_ELEMENT) {
-        rc = lydxml_subtree_r(lydctx, *node, lyd_node_child_p(*node), NULL);
-        LY_CHECK_GOTO(rc, cleanup);
+        r = lydxml_subtree_r(lydctx, *node, lyd_node_child_p(*node), NULL);
+        LY_DPARSER_ERR_GOTO(r, rc = r, lydctx, cleanup);
     }
+    /* all the children were read for the multi-error validation but the node is invalid */
+    LY_CHECK_GOTO(rc, cleanup);
 
     /* update the value */
     opaq = (struct lyd_node_opaq *)*node;
